@@ -23,6 +23,10 @@ def fmt_cases():
         f = "<" + "|".join("%s" for _ in range(nm)) + "> \u00e9\u65e5 " + "x" * 40
         args = [i(k) if k % 3 else atom("w%d" % k) for k in range(na)]
         out.append((single_query_case([rule(cplx("go"), PRINT(atom(f), *args))], [atom("go")], 2), "print-format"))
+    for f in ("\u00c0 %s la temp\u00e9rature est de %s \u00b0C.", "\u65e5\u672c %s\u8a9e%s", "\u00e9%s", "%s\u00e9%s\u00e9"):
+        out.append((single_query_case([rule(cplx("go"), PRINT(atom(f), atom("Orl\u00e9ans"), i(21)))], [atom("go")], 2), "print-format"))
+    fls = [flt(3.141592653589793), flt(16777217.0), flt(2.718281828459045), flt(-0.1), flt(1e-7), flt(123456789.125), flt(0.30000000000000004)]
+    out.append((single_query_case([rule(cplx("go"), AND(PRINT(atom("%s %s %s %s %s %s %s"), *fls), NL, bip("print_list", lst(fls)), PRINT(cplx("f", fls[0], lst([fls[1]])))))], [atom("go")], 2), "print-format"))
     for n in (9, 17, 30):
         big = lst([i(k) if k % 4 else lst([atom("e%d" % k)]) for k in range(n)])
         out.append((single_query_case([rule(cplx("go", X), AND(U(X, big), bip("print_list", X, lst([i(1)], X))))], [atom("go"), var(0, "$Q")], 2), "print-list"))
